@@ -311,6 +311,35 @@ def rule_quotation(rep: Report, idx: SourceIndex) -> None:
 					r.skip('lines-cut-at-newline-only', (RENDER, n.lineno), f'line list `{unparse(lst)[:60]}` not classified')
 			else:
 				r.skip('lines-cut-at-newline-only', (RENDER, n.lineno), f'line list `{unparse(lst)[:60]}` not classified')
+		# the quoted text is the file's CURRENT text: the line number and the columns come from the tree that was just parsed, so the lines have to be read
+		# from the file in this call. A process-wide memo keyed by the file name (linecache, functools.cache, a class-level dict) hands out the first
+		# version of a file that was edited and parsed again in the same process (the interactive loops): the carets then point into another line's text
+		rf = rep.rule('C16/quoted-text-is-read-fresh', 'Quotation.__load_line takes the lines from an open(<the file path>) made in the same call: not from linecache, a cached function or an attribute that outlives the call', floor=1)
+		path_p = [p_ for p_ in ll.params() if p_ != 'self'][0]
+		for n in subs:
+			origin = n.value
+			opens = [c_ for c_ in ast.walk(ll.node) if isinstance(c_, ast.Call) and unparse(c_.func) in ('open', 'io.open') and c_.args and path_p in {x.id for x in ast.walk(c_.args[0]) if isinstance(x, ast.Name)}]
+			handles = {w.optional_vars.id for st in ast.walk(ll.node) if isinstance(st, ast.With) for w in st.items if w.context_expr in opens and isinstance(w.optional_vars, ast.Name)}
+			from_handle = any((isinstance(x, ast.Name) and x.id in handles) or x in opens for x in ast.walk(origin))
+			memo_names = [unparse(x.func) for x in ast.walk(origin) if isinstance(x, ast.Call) and unparse(x.func).split('.')[0] == 'linecache']
+			cached_calls = []
+			for x in ast.walk(origin):
+				if isinstance(x, ast.Call):
+					g = None
+					if isinstance(x.func, ast.Attribute) and isinstance(x.func.value, ast.Name) and x.func.value.id in ('self', 'cls') and ll.cls is not None:
+						g = ll.cls.method(x.func.attr)
+					elif isinstance(x.func, ast.Name):
+						g = ll.module.functions.get(x.func.id)
+					if g is not None and any('cache' in unparse(d) for d in g.node.decorator_list):
+						cached_calls.append(unparse(x.func))
+			kept = [unparse(x) for x in ast.walk(origin) if isinstance(x, ast.Attribute) and isinstance(x.value, ast.Name) and x.value.id in ('self', 'cls') and not isinstance(getattr(x, 'ctx', None), ast.Store) and not any(isinstance(c_, ast.Call) and c_.func is x for c_ in ast.walk(origin))]
+			if memo_names or cached_calls or kept:
+				what = (memo_names + cached_calls + kept)[0]
+				rf.violate('lines-read-in-this-call', (RENDER, n.lineno), f'__load_line takes the lines from `{what}`, which remembers the file by its name for the life of the process: after the file is edited and parsed again (interactive session, unload + load) the quotation shows the OLD text under the NEW line number and carets — or nothing, where the old file was shorter', unparse(n)[:120])
+			elif from_handle:
+				rf.ok('lines-read-in-this-call', (RENDER, n.lineno), message=f'lines come from open({path_p}) in the same call')
+			else:
+				rf.skip('lines-read-in-this-call', (RENDER, n.lineno), f'origin of the line list `{unparse(origin)[:60]}` not classified')
 		# the END of the caret range of a node that continues on a later line is len(<quoted line>): the quoted line must not carry its line terminator.
 		# readlines() keeps the terminator of every line, split('\n') does not
 		for n in subs:
